@@ -75,6 +75,8 @@ type scheduler struct {
 	adopt      func(point string) string // returns a task name to adopt an unknown goroutine at this point, "" otherwise
 	blockT     time.Duration
 	clock      atomic.Int64
+	freed      chan struct{} // closed by setFree
+	freeOnce   sync.Once
 	trace      []string
 	arrivals   []string // task@point in order of arrival at the points
 	preempt    int      // number of resumptions that switched away from a task parked inside an operation
@@ -82,7 +84,7 @@ type scheduler struct {
 }
 
 func newScheduler() *scheduler {
-	return &scheduler{byGid: map[int64]*schedTask{}, events: make(chan schedEvent, 64), blockT: 4 * time.Millisecond}
+	return &scheduler{byGid: map[int64]*schedTask{}, events: make(chan schedEvent, 64), blockT: 4 * time.Millisecond, freed: make(chan struct{})}
 }
 
 func (s *scheduler) now() int64 { return s.clock.Add(1) }
@@ -90,8 +92,31 @@ func (s *scheduler) now() int64 { return s.clock.Add(1) }
 func (s *scheduler) install() { vhook.SetHandler(s.atPoint) }
 
 func (s *scheduler) uninstall() {
-	s.free.Store(true)
+	s.setFree()
 	vhook.SetHandler(nil)
+}
+
+// setFree ends all parking, now and for ever: tasks that are parked, about to
+// park, or adopted at this very moment all continue. (A task that had passed
+// the free check just before release() and was not in its snapshot used to
+// stay parked for ever - with the store's flusher adopted that way, Close
+// never returned and the test process hung.)
+func (s *scheduler) setFree() {
+	s.free.Store(true)
+	s.freeOnce.Do(func() { close(s.freed) })
+}
+
+// park waits until the scheduler resumes the task or everything is set free.
+func (s *scheduler) park(t *schedTask, e schedEvent) {
+	select {
+	case s.events <- e:
+	case <-s.freed:
+		return
+	}
+	select {
+	case <-t.resume:
+	case <-s.freed:
+	}
 }
 
 // atPoint is the handler of the named points.
@@ -113,8 +138,7 @@ func (s *scheduler) atPoint(name string) {
 	if t == nil {
 		return
 	}
-	s.events <- schedEvent{t: t, point: name}
-	<-t.resume
+	s.park(t, schedEvent{t: t, point: name})
 }
 
 // spawn starts a task running fn. The task parks before its first step.
@@ -135,12 +159,19 @@ func (s *scheduler) spawn(name string, fn func(yield func(point string))) *sched
 			if s.free.Load() {
 				return
 			}
-			s.events <- schedEvent{t: t, point: point}
-			<-t.resume
+			s.park(t, schedEvent{t: t, point: point})
 		}
 		yield("task.start")
 		fn(yield)
-		s.events <- schedEvent{t: t, done: true}
+		done := schedEvent{t: t, done: true}
+		select {
+		case s.events <- done:
+		default:
+			select {
+			case s.events <- done:
+			case <-s.freed: // nobody listens any more
+			}
+		}
 	}()
 	<-ready
 	return t
@@ -253,7 +284,7 @@ func (s *scheduler) run(p policy, maxSteps int) (allDone bool) {
 // release lets every task run freely from now on (points stop parking) and
 // wakes all parked tasks.
 func (s *scheduler) release() {
-	s.free.Store(true)
+	s.setFree()
 	s.mu.Lock()
 	all := append([]*schedTask{}, s.tasks...)
 	s.mu.Unlock()
